@@ -40,10 +40,13 @@ def gen_cases(ck, limit, step):
                 ops.append(["flush"])
             else:
                 m = msg(rng)
+                # calls also enter the queue through the chain API (a chain started and abandoned
+                # = enqueue; a one-call chain sent = send), which shares the write queue
+                viachain = m["kind"] in ("call", "ping", "badcall") and rng.random() < 0.25
                 if x < 0.6 and m["kind"] in ("call", "ping", "badcall"):
-                    ops.append(["enq", m])
+                    ops.append(["cenq" if viachain else "enq", m])
                 else:
-                    ops.append(["send", m])
+                    ops.append(["csend" if viachain else "send", m])
         add(ops, [], "random")
     # (b) sweep: a first enqueued call of every size 0..=2*step+90, then a second message:
     #     every free-space value is met at the start of the second message, and the first one ends
@@ -52,12 +55,16 @@ def gen_cases(ck, limit, step):
     for sz in range(0, top, 1 if not quick else 1):
         second = msg(rng)
         kind2 = "enq" if second["kind"] in ("call", "ping", "badcall") and rng.random() < 0.5 else "send"
+        if second["kind"] in ("call", "ping", "badcall") and rng.random() < 0.3:
+            kind2 = "c" + kind2
         add([["enq", {"kind": "call", "size": sz, "seed": sz, "plain": True}], [kind2, second], ["flush"]],
             [], "offset_sweep")
     # (b2) the same after the buffer was grown by an earlier large message (free space up to 700)
     for sz in range(0, 3 * step - 60, 1 if not quick else 2):
         second = msg(rng)
         kind2 = "enq" if second["kind"] in ("call", "ping", "badcall") and rng.random() < 0.5 else "send"
+        if second["kind"] in ("call", "ping", "badcall") and rng.random() < 0.3:
+            kind2 = "c" + kind2
         add([["send", {"kind": "reply", "size": 2 * step + 100, "seed": 1, "plain": True}],
              ["enq", {"kind": "call", "size": sz, "seed": sz, "plain": True}], [kind2, second], ["flush"]],
             [], "offset_sweep_grown")
